@@ -588,6 +588,36 @@ def _mk_agg(name):
 
 for _n in ('min', 'max', 'mean', 'std'):
     TABLE['seq.' + _n] = _mk_agg(_n)
+
+
+binmask = F('binmask', RSeq, BSeq)       # np.isin(r, (0, 1)) element-wise
+axiom('binmask.len', forall([_r], T.blen(binmask(_r)) == T.rlen(_r), [binmask(_r)]), ['binmask'], 'numpy')
+axiom('binmask.at', forall([_r, _i], T.bat(binmask(_r), _i) == z3.Or(T.rat(_r, _i) == 0, T.rat(_r, _i) == 1),
+                           [T.bat(binmask(_r), _i)]), ['binmask'], 'numpy')
+
+
+@reg('np.isin')
+def _isin(lib, run, recv, args, kw):
+    a, b = args[0], args[1]
+    vals = None
+    if isinstance(b, TupleV):
+        vals = b.items
+    elif isinstance(b, Ref) and isinstance(run.deref(b), ListO):
+        vals = run.deref(b).items
+    if isinstance(a, SeqV) and a.kind == 'R' and vals is not None and all(isinstance(x, Num) for x in vals) and \
+            sorted(x.concrete() for x in vals) == [0, 1]:
+        return SeqV('B', binmask(a.term))
+    raise Unsupported('np.isin arguments')
+
+
+@reg('seq.all')
+def _seq_all(lib, run, recv, args, kw):
+    if isinstance(recv, SeqV) and recv.kind == 'B':
+        t = recv.term
+        if z3.is_app(t) and t.decl().name() == 'binmask':
+            return BoolV(T.rbinary(t.arg(0)))       # every element is 0 or 1
+        return BoolV(T.bcnt(t) == T.blen(t))
+    raise Unsupported('all() of %r' % (recv,))
 rmean = F('rmean', RSeq, Real)
 axiom('rmean.def', forall([_r], z3.Implies(T.rlen(_r) > 0, rmean(_r) * T.rlen(_r) == T.rsum(_r)), [rmean(_r)]),
       ['rmean'], 'numpy')
